@@ -19,7 +19,8 @@ Failed(e) ==
             /\ (e.kind = "run" => RunStep(e.ev, e.pre, e.post)) THEN {} ELSE {"ContainerOnly"})
   \cup (IF GridStep(e.pre) /\ GridStep(e.post) THEN {} ELSE {"Grid"})
   \cup (IF RefusalStep(e.ev, e.a, e.refused, e.pre) THEN {} ELSE {"Refusal"})
-  \cup (IF e.kind \in {"transform", "container", "run"} THEN {} ELSE {"unknown-kind"})
+  \cup (IF RerunStep(e.kind, e.n0, e.n1) THEN {} ELSE {"Persisted"})
+  \cup (IF e.kind \in {"transform", "container", "run", "rerun"} THEN {} ELSE {"unknown-kind"})
 TraceInit == l = 1 /\ nbad = 0
 TraceNext ==
   \/ /\ l <= NEvents
